@@ -30,6 +30,7 @@ EXTENDS Integers, Sequences, TLC, Json
 
 CONSTANTS UnsupportedRule,   \* "rewrite" | "pass"
           HeadRule,          \* "rewrite" (as coded: a response to HEAD goes through the same rewrite) | "pass" (repaired)
+          StatusRule,        \* "rewrite" (as coded: 204 answers go through the same rewrite) | "pass" (repaired)
           CtRule,            \* "casesensitive" (as coded) | "caseinsensitive" (repaired)
           ParseRule,         \* "scripting" (as coded: html.Parse) | "noscripting" (plausible bug for the negative config)
           CspRule,           \* "firstline" (as coded: first header line, no policy-list splitting) | "policylist" (repaired)
@@ -42,6 +43,8 @@ vars == <<cfg, hdr, body, pc, path>>
 
 ContentTypes == {"html", "htmlcharset", "htmlcase", "other", "none"}   \* htmlcase: TEXT/HTML, Text/Html; charset=utf-8 ...
 Methods      == {"GET", "HEAD"}
+Statuses     == {"200", "204"}    \* 204 No Content: a response that never has a body. (304 belongs to the same class but cannot
+                                  \* be replayed: Go's net/http server strips Content-Type from a 304, so the gate never sees it.)
 Encodings    == {"none", "gzip", "br", "unsupported"}
 Requests     == {"plain", "htmx"}
 Csps         == {"none", "scriptsrc", "several", "otheronly", "nononce", "afterother", "defaultfirst",
@@ -199,19 +202,26 @@ NonceBranch(csp) ==
       [] r = NoNonce                         -> "ParseNonce.OnlyFirstHeaderLine"
       [] OTHER                               -> "ParseNonce.Found"
 
+\* nothing travels on the wire after the headers: the answer to a HEAD request, a 204
+Bodyless == cfg.method = "HEAD" \/ cfg.status # "200"
+NoBodyLabel(what) == (IF cfg.method = "HEAD" THEN "Head." ELSE "NoBodyStatus.") \o what
+
 Init ==
     \* GET with lower-case content types: the full product; HEAD (no body on the wire, whatever document the GET would
     \* return) and the other spellings of text/html: crossed with everything the decision depends on, two CSP shapes,
     \* one document
-    /\ cfg \in [method : {"GET"}, ct : ContentTypes \ {"htmlcase"}, enc : Encodings, req : Requests, skip : BOOLEAN,
+    /\ cfg \in [method : {"GET"}, status : {"200"}, ct : ContentTypes \ {"htmlcase"}, enc : Encodings, req : Requests, skip : BOOLEAN,
                  csp : Csps, body : Bodies, accept : Accepts]
-            \cup [method : {"HEAD"}, ct : ContentTypes, enc : Encodings, req : Requests, skip : BOOLEAN,
+            \cup [method : {"HEAD"}, status : {"200"}, ct : ContentTypes, enc : Encodings, req : Requests, skip : BOOLEAN,
                   csp : {"none", "scriptsrc"}, body : {"full", "empty"}, accept : Accepts]
-            \cup [method : {"GET"}, ct : {"htmlcase"}, enc : Encodings, req : Requests, skip : BOOLEAN,
+            \cup [method : {"GET"}, status : {"200"}, ct : {"htmlcase"}, enc : Encodings, req : Requests, skip : BOOLEAN,
                   csp : {"none", "scriptsrc"}, body : {"full"}, accept : Accepts]
-    /\ hdr = [status |-> "ok", ct |-> cfg.ct, enc |-> cfg.enc, skip |-> cfg.skip, csp |-> cfg.csp, cl |-> "match"]
+            \* answers whose status code excludes a body (the upstream declares no length)
+            \cup [method : {"GET"}, status : {"204"}, ct : ContentTypes \ {"htmlcase"}, enc : Encodings, req : Requests,
+                  skip : BOOLEAN, csp : {"none"}, body : {"full"}, accept : {"browser"}]
+    /\ hdr = [status |-> "ok", ct |-> cfg.ct, enc |-> cfg.enc, skip |-> cfg.skip, csp |-> cfg.csp, cl |-> IF cfg.status = "200" THEN "match" ELSE "absent"]
     /\ body = [doc |-> cfg.body, items |-> [i \in 1..Len(Doc(cfg.body).items) |-> "backend"], inserted |-> 0, nonce |-> NoNonce, coding |-> cfg.enc,
-               bytes |-> IF cfg.method = "HEAD" THEN "nobody" ELSE "backend"]
+               bytes |-> IF Bodyless THEN "nobody" ELSE "backend"]
     /\ pc = "transport"
     /\ path = <<>>
 
@@ -219,7 +229,7 @@ Go(next, what) == pc' = next /\ path' = Append(path, what)
 
 Transport ==
     /\ pc = "transport"
-    /\ IF cfg.accept = "absent" /\ hdr.enc = "gzip" /\ cfg.method = "GET"     \* (the transport does not ask for gzip on HEAD)
+    /\ IF cfg.accept = "absent" /\ hdr.enc = "gzip" /\ ~Bodyless     \* (nothing to decode without a body)
        THEN /\ hdr' = [hdr EXCEPT !.enc = "none", !.cl = "absent"]
             /\ body' = [body EXCEPT !.coding = "none", !.bytes = "gunzipped"]
             /\ Go("mark", "Transport.TransparentGunzip")
@@ -236,6 +246,7 @@ MarkHtmx ==
 Decide ==
     /\ pc = "decide"
     /\ CASE cfg.method = "HEAD" /\ HeadRule = "pass" -> Go("deliver", "Decide.HeadPasses")
+         [] cfg.method # "HEAD" /\ cfg.status # "200" /\ StatusRule = "pass" -> Go("deliver", "Decide.NoBodyStatusPasses")
          [] OTHER ->
        CASE hdr.skip -> Go("deliver", "Decide.SkipMarker")
          [] ~hdr.skip /\ ~GateHtml(hdr.ct) ->
@@ -249,23 +260,23 @@ Decide ==
 \* gzip / br: real decoder; none: identity; unsupported (as coded): identity reader over encoded bytes
 Decode ==
     /\ pc = "decode"
-    /\ IF cfg.method = "HEAD" /\ hdr.enc = "gzip"
+    /\ IF Bodyless /\ hdr.enc = "gzip"
        THEN \* gzip.NewReader on the empty body of a HEAD response: EOF; modifyResponse returns the error and
             \* ReverseProxy answers 502 Bad Gateway
             /\ hdr' = [hdr EXCEPT !.status = "badgateway", !.cl = "absent"]
-            /\ UNCHANGED body /\ Go("deliver", "Head.GzipReaderFailsOnEmptyBody")
+            /\ UNCHANGED body /\ Go("deliver", NoBodyLabel("GzipReaderFailsOnEmptyBody"))
        ELSE /\ UNCHANGED hdr
-            /\ IF hdr.enc \in {"gzip", "br"} /\ cfg.method = "GET"
+            /\ IF hdr.enc \in {"gzip", "br"} /\ ~Bodyless
                THEN body' = [body EXCEPT !.coding = "none", !.bytes = "decoded"] /\ Go("insert", "Decode." \o hdr.enc)
                ELSE UNCHANGED body /\ Go("insert", "Decode.Identity")
     /\ UNCHANGED cfg
 
 Insert ==
     /\ pc = "insert"
-    /\ IF cfg.method = "HEAD"
+    /\ IF Bodyless
        THEN \* nothing on the wire: the empty text parses to html/head/body, the script goes into that synthetic page
             /\ body' = [body EXCEPT !.bytes = "synthetic", !.inserted = 1, !.nonce = ParseNonce(hdr.csp)]
-            /\ Go("encode", "Head.ScriptIntoSyntheticDocument")
+            /\ Go("encode", NoBodyLabel("ScriptIntoSyntheticDocument"))
        ELSE IF body.coding # "none"
        THEN \* encoded bytes parsed as if they were HTML: whatever comes out is not the document any more
             /\ body' = [body EXCEPT !.bytes = "mangled", !.inserted = 1, !.nonce = ParseNonce(hdr.csp)]
@@ -290,9 +301,11 @@ Encode ==
 SetLength ==
     /\ pc = "length"
     /\ IF LengthRule = "set"
-       THEN hdr' = [hdr EXCEPT !.cl = IF cfg.method = "HEAD" THEN "synthetic" ELSE "match"]   \* HEAD: the length of a page nobody serves
+       THEN hdr' = [hdr EXCEPT !.cl = IF Bodyless THEN "synthetic" ELSE "match",   \* HEAD: the length of a page nobody serves
+                              \* 204: net/http refuses the body ReverseProxy then copies and the exchange is aborted
+                              !.status = IF cfg.status # "200" THEN "aborted" ELSE @]
        ELSE UNCHANGED hdr
-    /\ Go("deliver", "SetLength")
+    /\ Go("deliver", IF cfg.status # "200" THEN "NoBodyStatus.BodyWrittenToBodylessStatus" ELSE "SetLength")
     /\ UNCHANGED <<cfg, body>>
 
 Deliver ==
@@ -308,7 +321,7 @@ Spec == Init /\ [][Next]_vars
 Done == pc = "done"
 
 \* which exchanges C20 says must pass through
-Get == cfg.method = "GET"
+Get == ~Bodyless
 MustPass == \/ ~IsHtml(cfg.ct) \/ cfg.enc = "unsupported" \/ cfg.req = "htmx" \/ cfg.skip
 
 \* the bytes are the backend's; the only tolerated difference is the Go transport's own transparent gunzip
@@ -333,10 +346,10 @@ DocumentOnlyAppendedTo ==
 
 LengthMatchesBody == (Done /\ Get) => (hdr.cl = "match" \/ (hdr.cl = "absent" /\ body.bytes = "gunzipped"))
 
-\* C20 for a response without body (HEAD): there is nothing to append the script to, so nothing may change -- the status,
+\* C20 for a response without body (HEAD, 204): there is nothing to append the script to, so nothing may change -- the status,
 \* the declared length (that of the resource), the encoding and type headers are the upstream's
 HeadIsUntouched ==
-    (Done /\ ~Get) => (hdr.status = "ok" /\ hdr.cl = "match" /\ hdr.enc = cfg.enc /\ hdr.ct = cfg.ct /\ body.inserted = 0)
+    (Done /\ ~Get) => (hdr.status = "ok" /\ hdr.cl = (IF cfg.status = "200" THEN "match" ELSE "absent") /\ hdr.enc = cfg.enc /\ hdr.ct = cfg.ct /\ body.inserted = 0)
 
 EncodingHeaderDescribesBody == (Done /\ Get) => (hdr.enc = body.coding /\ body.bytes # "mangled")
 
